@@ -359,7 +359,7 @@ def build_unit(unit, workdir, want_trace_for=None):
             info["loop_contracts"] = loopjson
             extra.append(loopfile)
         except Tooling as e:
-            if not str(e).startswith(("loop anchor", "loop symbol")) or unit.get("enforce") or unit["replace"]:
+            if not str(e).startswith(("loop anchor", "loop symbol")):
                 raise
             # The loop structure of the function has changed (a loop was removed, added or
             # its locals renamed): the loop contracts cannot be attached. Fall back to a
@@ -381,6 +381,18 @@ def build_unit(unit, workdir, want_trace_for=None):
         cmd += [cur, b]
         r = run(cmd, 600)
         info["steps"].append(" ".join(cmd))
+        if r["rc"] != 0 and loopfile and "loop without contract" in (r["out"] + r["err"]):
+            # a loop was added inside or around a loop under contract: same bounded fall-back
+            info["bounded_fallback"] = "a loop without contract appeared in %s" % unit["name"]
+            info.pop("loop_contracts", None)
+            cmd = ["goto-instrument", "--dfcc", unit["entry"]]
+            if unit.get("enforce"):
+                cmd += ["--enforce-contract", unit["enforce"]]
+            for g in unit["replace"]:
+                cmd += ["--replace-call-with-contract", g]
+            cmd += [before_pre, b]
+            r = run(cmd, 600)
+            info["steps"].append(" ".join(cmd))
         if r["rc"] != 0:
             raise Tooling("goto-instrument --dfcc failed for %s:\n%s" % (unit["name"], (r["out"] + r["err"])[-3000:]))
         cur = b
